@@ -36,6 +36,14 @@ class Ctx:
         self.work = os.path.join(CACHE, "work", "%s-%s-%d" % (pid, tier, os.getpid()))
         shutil.rmtree(self.work, ignore_errors=True)
         os.makedirs(self.work, exist_ok=True)
+        # scratch of runs that were killed (TLC metadirs can be tens of GB, shard copies, work dirs): drop when older than 8 h
+        import glob
+        for stale in glob.glob(os.path.join(CACHE, "tlc", "md-*")) + glob.glob(os.path.join(CACHE, "shards-*")) + glob.glob(os.path.join(CACHE, "work", "*")):
+            try:
+                if stale != self.work and time.time() - os.path.getmtime(stale) > 8 * 3600:
+                    shutil.rmtree(stale, ignore_errors=True)
+            except OSError:
+                pass
         os.makedirs(os.path.join(OUT, "replays"), exist_ok=True)
 
     @property
